@@ -371,6 +371,8 @@ def stepBackend (st : SuiteState) (toks : List String) : SuiteState × String :=
   -- iterators of one partition)
   | ["getdelay", _] => (st, "getdelay ok")
   | ["commitdelay", _] => (st, "commitdelay ok")
+  -- the node is restarted over the same data (Badger: closed and opened again): nothing a reader can tell
+  | ["reopen"] => (st, "reopen ok")
   | ["iterslow", _] => (st, "iterslow ok")
   | ["list", a, b, r, lim] =>
     if st.getFault then ({ st with getFault := false }, "list err other") else
